@@ -29,7 +29,9 @@ func runC13(c *Check) error {
 	c.Assumptions = append(c.Assumptions, stdAssumptions...)
 	c.Assumptions = append(c.Assumptions, "each operation is a deterministic function of the tree and its own fresh visitor (checked by C11's determinism part)")
 	c.ExploreNeeds(shortShapes("H_C13", K0, K1, K2, vers, 3_000_000), nil)
-	return nil
+	c.ExploreNeeds(resolverShapes("H_C13", "7.4", 6_000_000), nil)
+	c.Bounds = append(c.Bounds, resolverBound)
+	return corpusShapes(c, "H_C13", 0, false, 12_000_000)
 }
 
 func runC11(c *Check) error {
@@ -39,6 +41,11 @@ func runC11(c *Check) error {
 	c.Assumptions = append(c.Assumptions, stdAssumptions...)
 	c.Assumptions = append(c.Assumptions, "memory allocated during package initialisation and everything reachable from package-level variables is 'static'; a pipeline's own allocations are private to it; cmd/php-parser's goroutine/channel protocol is outside the claim")
 	c.ExploreNeeds(shortShapes("H_C11", K0, K1, K2, vers, 3_000_000), nil)
+	c.ExploreNeeds(resolverShapes("H_C11", "7.4", 6_000_000), nil)
+	c.Bounds = append(c.Bounds, resolverBound)
+	if err := corpusShapes(c, "H_C11", 0, false, 12_000_000); err != nil {
+		return err
+	}
 	scanned, found := c.R.Eng.ScanNondeterminism(c.funcs, "github.com/z7zmey/php-parser")
 	c.Extra["functions_scanned_for_nondeterminism"] = scanned
 	sort.Strings(found)
